@@ -115,3 +115,25 @@ func mapClear(m map[byte]int64, k byte) bool {
 	_, ok := m[k]
 	return ok
 }
+
+type rowsT struct{ rows [][]byte }
+
+// a byte-slice load UNDER a quantifier (no side assumptions may be generated there: regression for a generator bug that
+// emitted `(=> #skip ...)` into the query)
+// EXPECT pass
+func quantNested(x *rowsT, i int) int {
+	if i < 0 || i >= len(x.rows) {
+		return 0
+	}
+	return len(x.rows[i])
+}
+
+// EXPECT pass
+func quantNestedLoop(x *rowsT, b []byte) int {
+	n := 0
+	for i := 0; i < len(b); i++ {
+		b[i] = 1
+		n++
+	}
+	return n
+}
